@@ -20,6 +20,8 @@ import (
 
 	"github.com/ethereum/go-ethereum/rlp"
 
+	"github.com/Fantom-foundation/lachesis-base/abft/election"
+	"github.com/Fantom-foundation/lachesis-base/hash"
 	"github.com/Fantom-foundation/lachesis-base/inter/idx"
 	"github.com/Fantom-foundation/lachesis-base/inter/pos"
 )
@@ -95,6 +97,10 @@ func (c *canonRunner) Step(line string) string {
 			d.Set(idx.ValidatorID(Atou(kv[0])), 0)
 			e.Set(idx.ValidatorID(Atou(kv[0])), 0)
 		}
+		// consumers that only read the set (an election over it, its debug printer) do not disturb it either
+		el := election.New(vv, 1, func(a, b hash.Event) bool { return false }, func(f idx.Frame) []election.RootAndSlot { return nil })
+		_ = el.String(nil)
+		_ = vv.String()
 		last := c.last
 		if c.show(vv) != res {
 			res += " BUILT-SET-CHANGED"
